@@ -247,8 +247,10 @@ class World:
                 if conv != want or {frozenset(lab(x) for x in d) for d in got2} != want or sum(len(d) for d in got) != len(model.nodes):
                     return fail(sorted(names(d) for d in got), sorted(sorted(map(_s, d)) for d in want))
                 for n in real.nodes():
-                    if lab(n) not in {lab(x) for x in real.get_district(n)}:
-                        return fail("get_district", "node in its own district")
+                    mine = frozenset(lab(x) for x in real.get_district(n))
+                    theirs = next(d for d in want if lab(n) in d)
+                    if mine != theirs:
+                        return fail(sorted(map(_s, mine)), sorted(map(_s, theirs)), form=f"get_district({_s(lab(n))})")
             elif q == "get_markov_pillow":
                 got, want = real.get_markov_pillow(list(rs)), model.markov_pillow(s)
                 if {lab(x) for x in got} != want or {lab(x) for x in twin.get_markov_pillow(list(ts))} != want:
